@@ -457,6 +457,7 @@ _ENV = {}
 
 def run_wsgi(testing, app, c):
     method, path = ROUTES[c['route']]
+    path = c.get('path', path)
     if c['meta']:
         method = 'WEBSOCKET'
     k = (method, path)
@@ -485,6 +486,7 @@ def run_wsgi(testing, app, c):
 
 async def run_asgi(testing, app, c):
     method, path = ROUTES[c['route']]
+    path = c.get('path', path)
     if c['meta']:
         method = 'WEBSOCKET'
     scope = testing.create_scope(path=path, method=method)
@@ -511,6 +513,26 @@ async def run_asgi(testing, app, c):
     except Exception as e:
         ending = 'foreign:%s' % type(e).__name__
     return State.trace, ending
+
+
+def run_wsgi_noscript(testing, app, c, script):
+    """run_wsgi with an explicitly given script (hook ids that are not tower positions)"""
+    real = globals()['set_script']
+    try:
+        globals()['set_script'] = lambda cc: (real(cc), setattr(State, 'script', script))
+        return run_wsgi(testing, app, c)
+    finally:
+        globals()['set_script'] = real
+
+
+async def run_asgi_noscript(testing, app, c):
+    real = globals()['set_script']
+    script = State.script
+    try:
+        globals()['set_script'] = lambda cc: (real(cc), setattr(State, 'script', script))
+        return await run_asgi(testing, app, c)
+    finally:
+        globals()['set_script'] = real
 
 
 def canon_trace(t):
@@ -625,6 +647,122 @@ class Runner:
                                       'process_response | [2,[site,idx],handler_action]; sites 0 req 1 rsrc 2 resp 3 hook '
                                       '4 responder 5 default-responder 6 meta'},
                            key='order-%s-%d-%d' % (clauses, c['asgi'], c['indep']))
+
+    # ---------------- every class of a resource hierarchy served; one responder function shared
+    def shared_hook_block(self):
+        """Hook wrappers must not be shared mutable state: every class of a hierarchy (base,
+        intermediate, derived, a sibling) is its own route in ONE app, and one hooked responder
+        function is re-decorated for two resources; each resource's trace must be `hooked` of its
+        OWN tower only (before and after hooks)."""
+        ctx = self.ctx
+        falcon = self.falcon
+        Handled = self.cache.Handled
+        for asgi in (0, 1):
+            def mk_hook(gid, before):
+                if asgi:
+                    if before:
+                        async def hook(req, resp, resource, params):
+                            code = State.script.get((S_HOOK, gid), 0)
+                            trace_of(req).append([0, [S_HOOK, gid], code])
+                            perform(falcon, Handled, [S_HOOK, gid], code, resp)
+                    else:
+                        async def hook(req, resp, resource):
+                            code = State.script.get((S_HOOK, gid), 0)
+                            trace_of(req).append([0, [S_HOOK, gid], code])
+                            perform(falcon, Handled, [S_HOOK, gid], code, resp)
+                else:
+                    if before:
+                        def hook(req, resp, resource, params):
+                            code = State.script.get((S_HOOK, gid), 0)
+                            trace_of(req).append([0, [S_HOOK, gid], code])
+                            perform(falcon, Handled, [S_HOOK, gid], code, resp)
+                    else:
+                        def hook(req, resp, resource):
+                            code = State.script.get((S_HOOK, gid), 0)
+                            trace_of(req).append([0, [S_HOOK, gid], code])
+                            perform(falcon, Handled, [S_HOOK, gid], code, resp)
+                return hook
+
+            def deco(gid, before):
+                return (falcon.before if before else falcon.after)(mk_hook(gid, before))
+
+            def responder():
+                if asgi:
+                    async def on_get(self, req, resp):
+                        code = State.script[(S_RESPONDER, 0)]
+                        trace_of(req).append([0, [S_RESPONDER, 0], code])
+                        perform(falcon, Handled, [S_RESPONDER, 0], code, resp)
+                else:
+                    def on_get(self, req, resp):
+                        code = State.script[(S_RESPONDER, 0)]
+                        trace_of(req).append([0, [S_RESPONDER, 0], code])
+                        perform(falcon, Handled, [S_RESPONDER, 0], code, resp)
+                return on_get
+            # (i) a hierarchy: towers are lists of (global hook id, is_before), outermost first
+            f = deco(1, 0)(deco(0, 1)(responder()))                 # method level: after 1, before 0
+            B0 = deco(2, 0)(type('B0', (), {'on_get': f}))
+            B1 = deco(3, 1)(deco(4, 0)(type('B1', (B0,), {})))
+            B2 = deco(5, 0)(type('B2', (B1,), {}))
+            S = deco(6, 1)(type('S', (B0,), {}))
+            t_b0 = [(2, 0), (1, 0), (0, 1)]
+            towers = {'/b0': t_b0, '/b1': [(3, 1), (4, 0)] + t_b0, '/b2': [(5, 0), (3, 1), (4, 0)] + t_b0,
+                      '/s': [(6, 1)] + t_b0}
+            resources = {'/b0': B0(), '/b1': B1(), '/b2': B2(), '/s': S()}
+            # (ii) one hooked responder function re-decorated for two resources (after / before)
+            g = deco(10, 0)(responder())
+            resources['/r1'] = type('R1', (), {'on_get': deco(11, 0)(g)})()
+            resources['/r2'] = type('R2', (), {'on_get': deco(12, 0)(g)})()
+            towers['/r1'] = [(11, 0), (10, 0)]
+            towers['/r2'] = [(12, 0), (10, 0)]
+            g2 = deco(20, 1)(responder())
+            resources['/r3'] = type('R3', (), {'on_get': deco(21, 1)(g2)})()
+            resources['/r4'] = type('R4', (), {'on_get': deco(22, 1)(deco(23, 0)(g2))})()
+            towers['/r3'] = [(21, 1), (20, 1)]
+            towers['/r4'] = [(22, 1), (23, 0), (20, 1)]
+            for indep in (0, 1):
+                local = AppCache(falcon)
+                local.Handled = Handled
+                base = mk_case(asgi, indep, [[0, 0, 0, -1, -1]])
+                app, _ = get_app(local, base)
+                for path, res in resources.items():
+                    app.add_route(path, res)
+                for order in (sorted(towers), sorted(towers, reverse=True)):
+                    for path in order:
+                        tower = towers[path]
+                        for variant in range(len(tower) + 1):
+                            # variant k > 0: layer k-1 raises a handled error
+                            hooks = [[b, 3 if variant == j + 1 else 0] for j, (gid, b) in enumerate(tower)]
+                            c = mk_case(asgi, indep, base['comps'], hooks=hooks)
+                            c['path'] = path
+                            set_script(c)
+                            script = dict(State.script)
+                            for j, (gid, b) in enumerate(tower):
+                                script[(S_HOOK, gid)] = hooks[j][1]
+                            if asgi:
+                                async def go():
+                                    set_script(c)
+                                    State.script = script
+                                    return await run_asgi_noscript(self.testing, app, c)
+                                t, e = asyncio.run(go())
+                            else:
+                                t, e = run_wsgi_noscript(self.testing, app, c, script)
+                            pos = {gid: j for j, (gid, b) in enumerate(tower)}
+                            got = []
+                            for ev in canon_trace(t):
+                                if ev[0] in (0, 2) and ev[1][0] == S_HOOK:
+                                    ev = [ev[0], [S_HOOK, pos.get(ev[1][1], 900 + ev[1][1])], ev[2]]
+                                got.append(ev)
+                            m = self.model.run(wire_case(c))
+                            ctx.count('shared-hook-block')
+                            ctx.note_case(('shared', asgi, indep, path, variant), True)
+                            if (got, e) != (m[1], model_ending(m[2])):
+                                ctx.violation('call-order-violated',
+                                              {'case': c, 'what': 'every class of a resource hierarchy / a shared hooked '
+                                               'responder served in one app: %s runs hooks that are not its own tower '
+                                               '(hook index 900+n = foreign hook n)' % path,
+                                               'tower': tower, 'impl_trace': got, 'impl_ending': e,
+                                               'expected': {'trace': m[1], 'ending': model_ending(m[2])}},
+                                              key='shared-hooks-%d' % asgi)
 
     # ---------------- raise T; add_error_handler(ancestor of T); raise T again
     def memo_block(self):
@@ -1072,6 +1210,7 @@ def main(ctx):
     r.check(list(style_sweep(MODES)), 'style-sweep')
     # 2e. raise T; register a handler for an ancestor; raise T again   /   2f. concurrency
     r.memo_block()
+    r.shared_hook_block()
     r.concurrency_block(4000 if quick else 100000)
     # 3. random deep stacks
     n = 3000 if quick else 40000
@@ -1097,6 +1236,8 @@ def replay(ctx, obj, runner=None):
         r.concurrency_block(100000)
     elif 'raise T' in obj.get('what', ''):
         r.memo_block()
+    elif 'shared hooked' in obj.get('what', ''):
+        r.shared_hook_block()
     elif 'msgs' in c:
         r.lifespan([c])
     else:
